@@ -13,13 +13,14 @@ var (
 	verifShutdownCalls  int
 	verifShutdownBudget bool
 	verifClosedHard     bool
+	verifClosedEarly    bool // Close before (instead of) the graceful drain
 	verifDrainFails     bool
 )
 
 func verifInFlightHandler(h http.Handler) http.Handler { return h }
 
 func verifStartWithRequestInFlight(srv *http.Server, budget time.Duration) {
-	verifShutdownWant, verifShutdownCalls, verifShutdownBudget, verifClosedHard = budget, 0, false, false
+	verifShutdownWant, verifShutdownCalls, verifShutdownBudget, verifClosedHard, verifClosedEarly = budget, 0, false, false, false
 	verifDrainFails = verifrt.Bool("drainingFails")
 }
 
@@ -27,8 +28,10 @@ func verifStartWithRequestInFlight(srv *http.Server, budget time.Duration) {
 // context it is given leaves the in-flight requests the whole configured budget.
 func verifServerShutdown(srv *http.Server, ctx context.Context) error {
 	verifShutdownCalls++
-	dl, has := ctx.Deadline()
-	verifShutdownBudget = ctx.Err() == nil && (!has || dl.Sub(verifrt.Now()) >= verifShutdownWant)
+	if verifShutdownCalls == 1 {
+		dl, has := ctx.Deadline()
+		verifShutdownBudget = ctx.Err() == nil && (!has || dl.Sub(verifrt.Now()) >= verifShutdownWant)
+	}
 	if verifDrainFails {
 		return context.DeadlineExceeded
 	}
@@ -38,9 +41,14 @@ func verifServerShutdown(srv *http.Server, ctx context.Context) error {
 // verifServerClose is the model of (*http.Server).Close.
 func verifServerClose(srv *http.Server) error {
 	verifClosedHard = true
+	if verifShutdownCalls == 0 {
+		verifClosedEarly = true
+	}
 	return nil
 }
 
 func verifInFlightCompleted() bool {
-	return verifShutdownCalls == 1 && verifShutdownBudget && verifClosedHard == verifDrainFails
+	// drained gracefully first, with the whole budget; closed hard if draining failed (a Close after a
+	// successful drain is harmless)
+	return verifShutdownCalls >= 1 && verifShutdownBudget && !verifClosedEarly && (!verifDrainFails || verifClosedHard)
 }
